@@ -143,6 +143,54 @@ def _always_delegates(fi, name):
         and isinstance(c.func.value, ast.Name) and c.func.value.id == fi.node.args.args[0].arg
 
 
+def rule_every_heading(ctx, rep, toc, rh, sup, prh, cfg):
+    """The options are applied to every heading, not only to the first: a renderer built by TocRenderer's own
+    constructor (the constructors above it stubbed) is handed three headings in a row; each must be collected or
+    left out as the options given to the constructor say (what the constructor stores must survive a use)."""
+    model = ctx.model
+    rule = 'R-TOC-FILTER'
+    hit = toc.lookup('__init__')
+    if hit is None or hit[0] != 'method':
+        return
+    init, owner = hit[1], hit[2]
+    above = toc.lookup_after(owner, '__init__')
+    unit = model.unit_of(rh)
+    for what, opts, levels, want in (
+            ('a filter that matches every heading', {'filter_conds': 'match'}, [2, 2, 3], [False, False, False]),
+            ('a filter that matches no heading', {'filter_conds': 'nomatch'}, [2, 2, 3], [True, True, True]),
+            ('omit_title', {'omit_title': True}, [1, 2, 1], [False, True, False]),
+            ('depth=2', {'depth': 2}, [3, 2, 3], [False, True, False])):
+        rep.instance(rule)
+        it = Interp(model, loop_bound=4)
+        it.reset_run(Oracle())
+        T.install_string_hooks(it)
+        if above is not None and above[0] == 'method':
+            it.func_hooks[above[1].qualname] = lambda interp, fi, args, kwargs: None
+        it.func_hooks[sup.qualname] = lambda interp, fi, args, kwargs: Marker('rendered-heading')
+        it.func_hooks[prh.qualname] = lambda interp, fi, args, kwargs: Marker('plain-text')
+        log = []
+        kw = {}
+        for k, v in opts.items():
+            kw[k] = [FilterFn(v == 'match', log)] if k == 'filter_conds' else v
+        r = T.clone_obj(cfg.obj)
+        try:
+            it.call_function(init, [r], kw)
+            got = []
+            for lv in levels:
+                before = len(r.attrs['_headings']) if isinstance(r.attrs.get('_headings'), list) else None
+                it.call_function(rh, [r, Obj(model.cls('block_token.Heading'), {'level': lv})], {})
+                after = len(r.attrs['_headings']) if isinstance(r.attrs.get('_headings'), list) else None
+                got.append(None if before is None or after is None else after == before + 1)
+        except Raised as e:
+            got = 'raises %s' % e.exc.kind
+        ok = got == want
+        rep.obligation(rule, ok, {'scenario': what, 'levels': levels, 'collected': got, 'expected': want})
+        if not ok:
+            rep.find(rule, rh.short, 'sequence(%s)' % sorted(opts)[0],
+                     'a TocRenderer constructed with %s and given headings of levels %s collects %s; every heading is to be '
+                     'judged by the same options: %s' % (what, levels, got, want), loc(unit, rh.node))
+
+
 def rule_wired(ctx, rep, toc, collector):
     """One entry per heading, ATX and setext: in every TocRenderer configuration each heading token class
     is dispatched to the collecting method (or to a method that does nothing but forward to it through self)."""
@@ -266,6 +314,7 @@ def run(ctx):
             for p in problems:
                 rep.find('R-TOC-ORDER', rh.short, p.split(':')[0][:50], p, loc(unit, rh.node))
     rep.floor('R-TOC-FILTER', rep.rules['R-TOC-FILTER']['obligations'], 40)
+    rule_every_heading(ctx, rep, toc, rh, sup, prh, cfg)
     rule_wired(ctx, rep, toc, rh)
 
     # parse_rendered_heading removes tags
